@@ -129,7 +129,9 @@ class WriteToPaths(Writer):
                 f"[WriteToPaths] Cannot Create: path already exists for {sid}. Path: {path} (config: {self.config})."
             )
 
-        suffix = path.suffix
+        # Only a leaf Sid (one that carries the leaf key, typically "ext") is a file:
+        # a folder name containing a dot ("oph.elia") also has a "suffix".
+        suffix = path.suffix if _sid.is_leaf() else ""
         if suffix:
             debug(f"Path is a file: {path}")
             template = create_file_using_template.get(suffix[1:])  # we remove the dot of the suffix
